@@ -1044,7 +1044,13 @@ func runBurst(id int, rng *rand.Rand) (cr caseResult) {
 	select {
 	case <-r.conn.Done():
 	case <-time.After(hangTimeout):
-		vhlib.Fatal("burst %d: conn.Done() not closed after Close", id)
+		// the run loop did not see the closed stream: it is blocked somewhere (hang names where, or stops the
+		// harness if no goroutine of the conn is blocked); the recorded execution still goes to TLC
+		sig, msg := r.hang("burst: the run loop did not stop after Close", nil)
+		cr = fail(sig, msg)
+		r.toConn.Close()
+		cr.trace, cr.events = r.traceLine(true)
+		return cr
 	}
 	<-peerDone
 	r.mu.Lock()
@@ -1146,6 +1152,10 @@ func connMain(args []string) {
 		bursts++
 		if cr.failed {
 			fails++
+			if cr.trace != nil {
+				w.Write(cr.trace)
+				w.WriteByte('\n')
+			}
 			break
 		}
 		if cr.unreal > 0 {
